@@ -97,6 +97,14 @@ class C19(PureCheck):
                 r = {"k": "r", "v": l, "variant": j}
                 yield {"op": "eq", "x": {"k": "f", "v": l}, "y": r}
                 yield {"op": "eq", "x": r, "y": {"k": "f", "v": l}}
+        # a run whose TEXT holds a raw SGR sequence (FmtStr + str keeps a str operand verbatim) against the properly
+        # formatted value with the same terminal string - cold, and with the views of both looked at before
+        raw = [[97], [0] * 8], [[27, 91, 51, 49, 109, 98, 27, 91, 51, 57, 109], [0] * 8]
+        twin = [[97], [0] * 8], [[98], [2, 0, 0, 0, 0, 0, 0, 0]]
+        other = [[97], [0] * 8], [[98], [3, 0, 0, 0, 0, 0, 0, 0]]
+        for x, y in ((raw, twin), (twin, raw), (raw, other), (raw, raw)):
+            for w in (0, 1, 2, 3, 9, 15):
+                yield {"op": "eq", "x": {"k": "f", "v": [list(map(list, r)) for r in x]}, "y": {"k": "f", "v": [list(map(list, r)) for r in y]}, "warm": w}
         reprpool = [l for l in L if len(l) >= 1] if tier == "thorough" else [l for l in L if len(l) >= 1][::3]
         for l in reprpool:
             yield {"op": "repr", "f": l}
